@@ -43,6 +43,20 @@ def _F(fn, x):
     return fn(x)
 
 
+_last = {}
+
+
+def _memo(key, fn):
+    """one-entry memo per sector: the resummed and the non-resummed parameter set of a point share the gaugino
+    sector (identical inputs give the identical decomposition), so it is diagonalised once"""
+    hit = _last.get(key[0])
+    if hit is not None and hit[0] == key:
+        return hit[1]
+    val = fn()
+    _last[key[0]] = (key, val)
+    return val
+
+
 def neutralino_matrix(gp, g2, vd, vu, mu, M1, M2):
     return matrix([[M1, 0, -gp * vd / 2, gp * vu / 2],
                    [0, M2, g2 * vd / 2, -g2 * vu / 2],
@@ -75,7 +89,8 @@ def amu_1loop(par, dps=DPS, detail=False):
             ("g1", "g2", "vd", "vu", "mu", "M1", "M2", "ml2", "me2", "y", "Ty", "mm")]
         gp = sqrt(mpf(3) / 5) * g1
         # --- neutralinos: Mn = Q diag(E) Q^T, row i of N is column i of Q; signed masses E_i
-        E, Q = mpmath.eigsy(neutralino_matrix(gp, g2, vd, vu, mu, M1, M2))
+        E, Q = _memo(("chi0", dps) + tuple(par[k] for k in ("g1", "g2", "vd", "vu", "mu", "M1", "M2")),
+                     lambda: mpmath.eigsy(neutralino_matrix(gp, g2, vd, vu, mu, M1, M2)))
         # --- smuons
         Es, Qs = mpmath.eigsy(smuon_matrix(gp, g2, vd, vu, mu, ml2, me2, y, Ty))
         msn2 = sneutrino_mass2(gp, g2, vd, vu, ml2)
@@ -99,7 +114,8 @@ def amu_1loop(par, dps=DPS, detail=False):
         pref = mm / (16 * pi ** 2)
         a0 *= pref
         # --- charginos: X = Uc diag(S) Vc  (psi^-T X psi^+)
-        Uc, S, Vc = mpmath.svd_r(chargino_matrix(g2, vd, vu, mu, M2))
+        Uc, S, Vc = _memo(("cha", dps) + tuple(par[k] for k in ("g2", "vd", "vu", "mu", "M2")),
+                          lambda: mpmath.svd_r(chargino_matrix(g2, vd, vu, mu, M2)))
         ac = mpf(0)
         termsc = []
         for k in range(2):
